@@ -138,7 +138,7 @@ func (P *Program) checkFrame(fn *ssa.Function, depth int) []string {
 			}
 		}
 		if callee == nil {
-			for _, k := range []string{fieldFuncVarKey(c.Value), globalFuncVarKey(c.Value)} {
+			for _, k := range []string{fieldFuncVarKey(c.Value), globalFuncVarKey(c.Value), funcTypeKey(c.Value)} {
 				if k != "" {
 					if fct := P.db.Contracts[k]; fct != nil && fct.ModNothing {
 						return
@@ -441,7 +441,7 @@ func (P *Program) checkModFrame(fn *ssa.Function, ct *Contract, mapKey func(*typ
 		callee := c.StaticCallee()
 		var cct *Contract
 		if callee == nil {
-			for _, k := range []string{fieldFuncVarKey(c.Value), globalFuncVarKey(c.Value)} {
+			for _, k := range []string{fieldFuncVarKey(c.Value), globalFuncVarKey(c.Value), funcTypeKey(c.Value)} {
 				if k != "" && P.db.Contracts[k] != nil {
 					cct = P.db.Contracts[k]
 				}
@@ -526,7 +526,9 @@ func (P *Program) checkModFrame(fn *ssa.Function, ct *Contract, mapKey func(*typ
 	return bad, true
 }
 
-// allocPath resolves an address of the form &alloc.f1.f2... to its local variable and field path.
+// allocPath resolves an address of the form &alloc.f1.f2... to its variable and field path. The
+// variable may be reached through a private pointer cell that is assigned exactly once with a fresh
+// allocation (p := &T{...}; ... p.f ...).
 func allocPath(x ssa.Value) (*ssa.Alloc, []int, bool) {
 	switch a := x.(type) {
 	case *ssa.Alloc:
@@ -537,8 +539,44 @@ func allocPath(x ssa.Value) (*ssa.Alloc, []int, bool) {
 			return nil, nil, false
 		}
 		return r, append(append([]int{}, p...), a.Field), true
+	case *ssa.UnOp:
+		if a.Op != token.MUL {
+			return nil, nil, false
+		}
+		cell, ok := a.X.(*ssa.Alloc)
+		if !ok || allocEscapes(cell) {
+			return nil, nil, false
+		}
+		if tgt := singleAllocStored(cell); tgt != nil {
+			return tgt, nil, true
+		}
 	}
 	return nil, nil, false
+}
+
+// singleAllocStored: the one allocation ever stored into a private pointer cell (nil if the cell is
+// assigned anything else).
+func singleAllocStored(cell *ssa.Alloc) *ssa.Alloc {
+	var tgt *ssa.Alloc
+	refs := cell.Referrers()
+	if refs == nil {
+		return nil
+	}
+	for _, r := range *refs {
+		st, ok := r.(*ssa.Store)
+		if !ok || st.Addr != cell {
+			continue
+		}
+		if c, isConst := st.Val.(*ssa.Const); isConst && c.IsNil() {
+			continue
+		}
+		a, ok := st.Val.(*ssa.Alloc)
+		if !ok || (tgt != nil && tgt != a) {
+			return nil
+		}
+		tgt = a
+	}
+	return tgt
 }
 
 func pathPrefix(a, b []int) bool {
@@ -553,11 +591,17 @@ func pathPrefix(a, b []int) bool {
 	return true
 }
 
-// allocEscapes: the address of the local variable (or of one of its fields) is used for anything
-// but loads, stores into it and further field addressing.
+// allocEscapes: the address of the variable (or of one of its fields) is used for anything but
+// loads, stores into it, further field addressing, being returned, or being kept in a private
+// pointer cell whose loads are used in the same ways.
 func allocEscapes(a *ssa.Alloc) bool {
+	seen := map[ssa.Value]bool{}
 	var esc func(v ssa.Value) bool
 	esc = func(v ssa.Value) bool {
+		if seen[v] {
+			return false
+		}
+		seen[v] = true
 		refs := v.Referrers()
 		if refs == nil {
 			return true
@@ -566,7 +610,30 @@ func allocEscapes(a *ssa.Alloc) bool {
 			switch u := r.(type) {
 			case *ssa.Store:
 				if u.Val == v {
-					return true
+					cell, ok := u.Addr.(*ssa.Alloc)
+					if !ok || cell == a {
+						return true
+					}
+					// the cell must itself be private, and every pointer loaded from it is an alias
+					crefs := cell.Referrers()
+					if crefs == nil {
+						return true
+					}
+					for _, cr := range *crefs {
+						switch cu := cr.(type) {
+						case *ssa.Store:
+							if cu.Val == cell {
+								return true
+							}
+						case *ssa.UnOp:
+							if cu.Op != token.MUL || esc(cu) {
+								return true
+							}
+						case *ssa.DebugRef:
+						default:
+							return true
+						}
+					}
 				}
 			case *ssa.UnOp:
 				if u.Op != token.MUL {
@@ -576,7 +643,7 @@ func allocEscapes(a *ssa.Alloc) bool {
 				if esc(u) {
 					return true
 				}
-			case *ssa.DebugRef:
+			case *ssa.Return, *ssa.DebugRef:
 			default:
 				return true
 			}
